@@ -12,6 +12,9 @@ SPEC = {
         {"name": "surplus", "pkg": S5, "kind": "rapid", "run": "^TestVerifC17Surplus$",
          "quick": {"checks": 6000, "shards": 2, "timeout": 300},
          "thorough": {"checks": 30000, "shards": 8, "timeout": 1500}},
+        {"name": "concurrent", "pkg": S5, "kind": "rapid", "run": "^TestVerifC17Concurrent$",
+         "quick": {"checks": 1500, "shards": 2, "timeout": 300},
+         "thorough": {"checks": 4000, "shards": 6, "timeout": 1500, "race": True}},
         {"name": "args", "pkg": S5, "kind": "rapid", "run": "^TestVerifC17Args$",
          "quick": {"checks": 60000, "shards": 1, "timeout": 300},
          "thorough": {"checks": 200000, "shards": 8, "timeout": 1500}},
@@ -38,7 +41,7 @@ TEXT = {
                    "independent parser on encoded, edited and dense random strings; two native fuzz targets extend both "
                    "searches coverage-guided in the thorough tier. Absence of violations beyond what was generated is not "
                    "established."),
-    "level_note": ("Surplus bytes behind a message (same segment, split, next segment) are generated as a class of their own: Handshake may refuse the exchange or return the exact request with every surplus byte still readable from the connection; swallowing them is a violation. Trusted: refsocks (written from RFC 1928/1929 and pt-spec), the wire. Preconditions taken from the code and "
+    "level_note": ("A concurrent unit runs 2..12 independent exchanges of one process at the same time (under the race detector in the thorough tier) with the per-connection oracles of the valid / malformed units. Surplus bytes behind a message (same segment, split, next segment) are generated as a class of their own: Handshake may refuse the exchange or return the exact request with every surplus byte still readable from the connection; swallowing them is a violation. Trusted: refsocks (written from RFC 1928/1929 and pt-spec), the wire. Preconditions taken from the code and "
                    "its caller tor: no NUL inside arguments, a lone NUL password stands for 'no password part', clients do not "
                    "pipeline in the valid / malformed units (a message is sent only after the previous reply); the surplus unit drops that assumption. A backslash before an ordinary byte is "
                    "accepted either as rejected (this implementation) or as that byte (goptlib). Deadline values are checked "
